@@ -14,6 +14,7 @@
 //   answers: OK <value> <consumed> | NOT <consumed> | ERR <cat>
 //   q <kind> <pol> <op,op,...> <hexdata>   a sequence of reads on one reader (int ops written int:<type>), answers joined by ';'
 //   p <kind> <pol> <op,op,...> <hexdata>   the same, and an exception is answered ERR <cat> <GetPosition() after the throw>
+// byte order:  rev <16|32|64> <hex>  -> the bytes NativeToBigEndian(value) has in memory ('!' appended if BigEndianToNative does not invert it)
 // signed hex (shex): '-' or '+' followed by hex magnitude
 #include "common.h"
 #include <cmath>
@@ -21,6 +22,7 @@
 #include <sstream>
 #include <streambuf>
 #include <algorithm>
+#include "bitserializer/conversion_detail/memory_utils.h"
 #include "msgpack/msgpack_writers.h"
 #include "msgpack/msgpack_readers.h"
 
@@ -174,6 +176,20 @@ int main() {
 				if (t.at(1) == "m") { CMsgPackStringWriter w(out); do_write(w, t); }
 				else { std::ostringstream os; { CMsgPackStreamWriter w(os); do_write(w, t); } out = os.str(); }
 				std::cout << vh::fmt_hex(out) << "\n";
+			}
+			else if (t.at(0) == "rev") {
+				// rev <16|32|64> <hex>: Memory::NativeToBigEndian on the unsigned type of that width, then the object
+				// representation (raw copy, as the writers emit it); BigEndianToNative of that gives the value back
+				const unsigned long long v = std::stoull(t.at(2), nullptr, 16);
+				std::string raw;
+				auto emit = [&raw](auto x, auto orig) {
+					raw.assign(reinterpret_cast<const char*>(&x), sizeof x);
+					if (BitSerializer::Memory::BigEndianToNative(x) != orig) raw += "!";
+				};
+				if (t.at(1) == "16") emit(BitSerializer::Memory::NativeToBigEndian(static_cast<uint16_t>(v)), static_cast<uint16_t>(v));
+				else if (t.at(1) == "32") emit(BitSerializer::Memory::NativeToBigEndian(static_cast<uint32_t>(v)), static_cast<uint32_t>(v));
+				else emit(BitSerializer::Memory::NativeToBigEndian(static_cast<uint64_t>(v)), static_cast<uint64_t>(v));
+				std::cout << vh::fmt_hex(raw) << "\n";
 			}
 			else if (t.at(0) == "q" || t.at(0) == "p") {
 				const bool errpos = t.at(0) == "p";
